@@ -8,6 +8,7 @@ CONSTANTS
   AssignImpl = "fixed"
   WM = 12
   ConstructSlots <- Slots3
+  Unbounded = FALSE
   Ops <- AllOps
 INVARIANTS Refines NoAlias NoUseAfterFree NoDoubleFree NoLeak
 POSTCONDITION Accepted
